@@ -469,7 +469,7 @@ func Main(args []string) int {
 	words := []string{"", "a", "ab", "abc", "<a>", "x=1 y", "\\n", "long-value-0123456789", "\xc3\xa9t\xc3\xa9", "  pad  ", "a,b"}
 	nprog, nrecs := 300, 30
 	if thorough {
-		nprog, nrecs = 5000, 100
+		nprog, nrecs = 40000, 100
 	}
 	gen := newGen(rnd)
 	for p := 0; p < nprog; p++ {
